@@ -257,14 +257,14 @@ func (ex *Exec) visitInstr(fr *frame, instr ssa.Instruction) continuation {
 		default:
 			panic(engineError{fmt.Sprintf("unexpected x type in IndexAddr: %T", x)})
 		}
-		fr.env[instr] = ex.indexAddr(fr, cells, fr.get(instr.Index), instr)
+		fr.env[instr] = ex.indexAddr(fr, cells, fr.get(instr.Index), instr.Index.Type())
 	case *ssa.Index:
 		x := fr.get(instr.X)
 		switch x := x.(type) {
 		case Array:
-			fr.env[instr] = ex.indexValue(fr, x, fr.get(instr.Index))
+			fr.env[instr] = ex.indexValue(fr, x, fr.get(instr.Index), instr.Index.Type())
 		case string, SymStr:
-			fr.env[instr] = ex.indexValue(fr, strCells(x), fr.get(instr.Index))
+			fr.env[instr] = ex.indexValue(fr, strCells(x), fr.get(instr.Index), instr.Index.Type())
 		default:
 			panic(engineError{fmt.Sprintf("unexpected x type in Index: %T", x)})
 		}
